@@ -29,6 +29,14 @@ pub fn run(cx: &mut Ctx) {
     let p = Prog { shape: Shape::KG, src: vec![V::pair(V::I(0), V::L(vec![V::I(1)])), V::pair(V::I(0), V::L(vec![V::I(2)]))], steps: vec![Step::CombineValuesLifted(Comb::Sum)] };
     check_prog(cx, &p, &[Mode::Seq, Mode::Par(2)], &o);
 
+    // a lawful NON-commutative user combiner (outside the "associative and commutative" clause; the model's theorems
+    // need only `LawfulCombiner`): correspondence + reference = last value in source order
+    let n = cx.budget(120, 1200);
+    crate::pipe::ordered_comb_cases(cx, n, &o);
+    // a legal `Hash` far coarser than `Eq` on the key / element type
+    let n = cx.budget(80, 800);
+    crate::pipe::coarse_hash_cases(cx, n, &o);
+
     // ties: values of EQUAL `to_int` but different structure. `V::cmp` / Lean `Val.le` break such ties by the
     // structural order (variant rank I < S < U < N < O < P < L, then the components) — every ordered pair
     // through Max / TopK(1), then whole tie classes through per-key / lifted / global TopK(k) so that the
